@@ -17,7 +17,8 @@ def main(args):
     embs = sorted({s.emb for s in specs.ALL.values()})
     inc = corpus.generate_headers(embs, cdir)
     try:
-        jobs = corpus.read_jobs("corpus.specs", list(specs.ALL), inc)
+        from contracts import cpp_arith, cpp_array
+        jobs = corpus.read_jobs("corpus.specs", list(specs.ALL), inc) + cpp_arith.jobs(args.tier) + cpp_array.jobs(args.tier)
         idx = viewcheck.wrapper_index(jobs)
         if args.replay:
             d = json.load(open(args.replay))
@@ -32,6 +33,20 @@ def main(args):
                 n += 1
     finally:
         shutil.rmtree(inc, ignore_errors=True)
+    # E1: the generator's choice of IntermediateT / ResultT / ArgTs for every built-in operation (the link between the
+    # bounds pass and the `requires` of the arithmetic templates)
+    from vlib import pool
+    from contracts import gate
+    n0 = len(run.obligations)
+    pool.run_targets(run, "contracts.gate", ["_render_builtin_operation", "_cpp_integer_type_for_range"])
+    for ob in run.obligations[n0:]:
+        if ob.verdict == core.REFUTED and ob.name.startswith("_render_builtin_operation"):
+            ob.replay = gate.replay_render_builtin_operation(ob.name, ob.model)
+    run.function("emboss::support::{Sum,Difference,Product,Equal,NotEqual,LessThan,LessThanOrEqual,GreaterThan,GreaterThanOrEqual,And,Or,Choice,Maximum,MaybeStaticCast,MaybeDo}",
+                 "llvc: every instantiation over {int32,uint32,int64,uint64}^k the generator can name, against the exact mathematical result (contracts/cpp_arith.py)")
+    run.function("emboss::support::GenericArrayView::{Ok,IsComplete,ElementCount,Equals,UncheckedEquals,operator[]}", "llvc: real template over a harness element view (contracts/cpp_array.py), arrays of <= 6 elements")
+    run.function("compiler.back_end.cpp.header_generator._render_builtin_operation", "pyvc: IntermediateT holds the bounds of the result and of every integer operand; ResultT/ArgTs/operand order")
+    run.function("compiler.back_end.cpp.header_generator._cpp_integer_type_for_range", "pyvc: first of int32,uint32,int64,uint64 whose range contains the bounds")
     run.extra["programs"] = len(specs.ALL)
     run.extra["disagreements_checked"] = sum(1 for o in run.obligations if o.verdict == core.REFUTED)
     run.extra["corpus_files"] = embs
@@ -41,6 +56,9 @@ def main(args):
     for s in specs.ALL:
         run.function("generated view of corpus structure %s (%s)" % (s, specs.ALL[s].emb), "llvc: header generated in this run vs hand-written reference semantics, all buffers")
     run.assume(*core.STANDING_ASSUMPTIONS["E2"])
+    run.assume(*core.STANDING_ASSUMPTIONS["E1"])
+    run.assume("arithmetic templates: the `requires` (operands and exact result within IntermediateT/ResultT) is supplied by C05 soundness + the 64-bit gate + "
+               "_render_builtin_operation's choice (each proved separately; their composition is a paper step)")
     run.assume("the hand-written reference semantics of each corpus structure (corpus/specs.py) is the oracle",
                "reference arithmetic is 64-bit two's complement; that no intermediate leaves 64 bits is the compiler's gate (C04 layer 2)",
                "parameter values lie within their declared Emboss type")
